@@ -185,8 +185,46 @@ func (p *prover) elemStoresNonNeg(root ssa.Value, elem types.Type, depth int) bo
 					}
 				}
 			case *ssa.Store:
-				// the slice value itself stored somewhere (e.g. into a struct literal): escapes
-				good = false
+				// the slice value itself stored somewhere: escapes - unless it is put into a local struct that only
+				// groups values and is handed, by value, to helpers: then the field's readers are further names of it
+				al, k := carrierOfStore(x)
+				if al == nil || x.Val != v {
+					good = false
+					continue
+				}
+				vals, stores, calls, okC := structFieldAliases(al, k, 0)
+				if !okC || len(stores) != 1 {
+					good = false
+					continue
+				}
+				for _, a := range vals {
+					visit(a)
+				}
+				var follow func(q *prover, calls []carrierCall, d int)
+				follow = func(q *prover, calls []carrierCall, d int) {
+					for _, cc := range calls {
+						callee := cc.Call.Common().StaticCallee()
+						if callee == nil || !inModule(callee) || callee.Blocks == nil || d >= 3 || len(cc.Call.Common().Args) != len(callee.Params) {
+							if q.ix.callMayWriteElems(q.fn, cc.Call, elem) {
+								good = false
+							}
+							continue
+						}
+						cv, cst, ccalls, okH := structFieldAliases(callee.Params[cc.Arg], k, 0)
+						if !okH || len(cst) != 0 {
+							good = false
+							continue
+						}
+						pc := q.ix.proverFor(callee)
+						for _, a := range cv {
+							if !pc.elemStoresNonNeg(a, elem, depth+1) {
+								good = false
+							}
+						}
+						follow(pc, ccalls, d+1)
+					}
+				}
+				follow(p, calls, depth)
 			default:
 				good = false
 			}
